@@ -243,7 +243,7 @@ def acoll_fn(kinds):
         if len(got) != len(kinds):
             return False
         conds = [coll.start == MIN([m[1] for m in members]), coll.end == MAX([m[2] for m in members]),
-                 len(coll) == len(genes) + len(fcs), NOT(coll.is_empty)]
+                 len(coll) == len(genes) + len(fcs), coll.is_empty == (len(genes) + len(fcs) == 0)]  # is_empty is defined through len(): variant collections do not count
         for a, b in zip(got, got[1:]):
             conds.append(a.start <= b.start)
         # stable: equal starts keep the constructor's chain order genes, feature collections, variant collections
